@@ -99,14 +99,18 @@ def gen_case(rng, ndim=None, inner=None, outer=None, steady=None, const_mat=None
     return Case(ndim=ndim, r=r, t=t, h=h, nr=nr, nt=nt, nz=nz, inner=inner, outer=outer, steady=steady,
                 times=times, T0=T0, T0field=T0field, inner_data=idata, inner_data2=idata2,
                 outer_data=odata, outer_data2=odata2, mat_T=mat_T, mat_k=mat_k, mat_a=mat_a,
-                film=film, substep=rng.choice([1, 1, 2, 3]), plane=None, angle=0.0, bc_nt=nt)
+                film=film, substep=rng.choice([1, 1, 2, 3]),
+                # slice height of the 1D/2D abstractions: mid-height (the usual choice), the two legal ends
+                # (0.0 is falsy in Python) or anywhere in between; boundary data vary along z
+                plane=(None if ndim == 3 else rng.choice([None, None, 0.0, 1.0, dyadic(rng, 0.0, 1.0)])),   # fraction of h
+                angle=0.0, bc_nt=nt)
 
 
 def build(case):
     """real srlife objects for a case: (tube, material, fluid)"""
     receiver, thermal, materials = mods()
     tube = receiver.Tube(case.r, case.t, case.h, case.nr, case.nt, case.nz, T0=case.T0)
-    plane = case.h / 2 if case.plane is None else case.plane
+    plane = case.h / 2 if case.plane is None else case.plane * case.h   # case.plane is a fraction of the height
     if case.ndim == 1:
         tube.make_1D(plane, case.angle)
     elif case.ndim == 2:
@@ -209,7 +213,7 @@ def wall_nodes(case):
         thetas = [2.0 * np.pi * j / case.nt for j in range(case.nt)]
     else:
         thetas = [case.angle]
-    plane = case.h / 2 if case.plane is None else case.plane
+    plane = case.h / 2 if case.plane is None else case.plane * case.h   # case.plane is a fraction of the height
     if case.ndim >= 3:
         zs = list(np.linspace(0, case.h, case.nz))
     else:
